@@ -299,3 +299,39 @@ func CompareAndSwapInt64(p *int64, old, new int64) bool {
 	}
 	return false
 }
+
+// Pool (sync.Pool): deterministic — Get returns the most recently Put item, nothing is ever dropped by a collection, and
+// what one execution put is not handed to the next one (a package-level pool outlives an execution). No scheduling
+// point of its own: what a pool makes observable is aliasing of the items, and that is ordered by the other operations.
+type Pool struct {
+	New   func() any
+	items []any
+	owner *Sched
+}
+
+func (p *Pool) reset() {
+	if p.owner != cur {
+		p.items, p.owner = nil, cur
+	}
+}
+
+func (p *Pool) Get() any {
+	p.reset()
+	if n := len(p.items); n > 0 {
+		x := p.items[n-1]
+		p.items = p.items[:n-1]
+		return x
+	}
+	if p.New != nil {
+		return p.New()
+	}
+	return nil
+}
+
+func (p *Pool) Put(x any) {
+	p.reset()
+	if x == nil || inKill() {
+		return
+	}
+	p.items = append(p.items, x)
+}
